@@ -22,7 +22,7 @@ Proof.
   { intros s Hs. unfold all_sigs. apply in_flat_map. exists m. split; auto. apply in_flat_map. exists s. split; auto.
     rewrite rt_sig_flat_head. apply in_eq. }
   assert (Hper : forall s, In s (m_signals m) ->
-             load_sig now (net_env (canon n)) (save_sig s) = Ok (sig_set_pos s 0) /\
+             load_sig now (net_env (canon n)) (m_size m * 8) (save_sig s) = Ok (sig_set_pos s 0) /\
              sig_size (net_env (canon n)) s = sig_size (net_env n) s).
   { intros s Hs. destruct (F3 s Hs) as [Ok1 Dom1].
     apply (rt_sig_simple now n); auto; apply agree_canon; auto. }
